@@ -4,3 +4,4 @@ import LinfaSpec.Props.C05
 import LinfaSpec.Props.C07
 import LinfaSpec.Props.C08
 import LinfaSpec.Props.C09
+import LinfaSpec.Props.C14
